@@ -1,9 +1,14 @@
 import Cbor.Gen.Encoders
 import Cbor.Gen.Encoding
 import Cbor.Spec.Encode
+import Cbor.Lemmas.Tactics
 /-!
 The generated low-level encoders, characterised once: each writes exactly the bytes of one RFC 8949 head
 at `off` when they fit in the `n` bytes it was given, and otherwise returns 0 leaving the buffer untouched.
+
+The proofs are independent of the spelling of the generated functions (see `Cbor.Lemmas.Tactics`): every `if`
+is split, every guard becomes a `Nat` fact, the stores are compared one by one and each stored byte is compared
+through `toNat` (so `v >> 8`, `v / 256`, `(uint8_t)(v >> 8)` … all go through).
 -/
 set_option linter.unusedVariables false
 set_option linter.unusedSimpArgs false
@@ -19,153 +24,110 @@ def writeList (buf : Array UInt8) (off : Nat) : List UInt8 → Array UInt8
 def encRes (buf : Array UInt8) (off : Nat) (n : UInt64) (bs : List UInt8) : UInt64 × Array UInt8 :=
   if bs.length ≤ n.toNat then (UInt64.ofNat bs.length, writeList buf off bs) else (0, buf)
 
-local macro "u8eq" : tactic => `(tactic| (apply UInt8.toNat_inj.mp; (simp [C.toU8, UInt8.toNat_add, UInt8.toNat_mul, Nat.shiftRight_eq_div_pow] <;> omega)))
-
 theorem writeList_size (buf : Array UInt8) (off : Nat) (bs : List UInt8) : (writeList buf off bs).size = buf.size := by
   induction bs generalizing buf off with
   | nil => rfl
   | cons b bs ih => simp [writeList, ih]
 
+/-! the head bytes of the specification, spelled out per width (facts about `Spec` only) -/
+theorem hb_small (mt ai v : Nat) (h : ai < 24) : Spec.headBytes mt ai v = [UInt8.ofNat (mt * 32 + ai)] := by
+  simp [Spec.headBytes, h]
+theorem hb_24 (mt v : Nat) : Spec.headBytes mt 24 v = [UInt8.ofNat (mt * 32 + 24), UInt8.ofNat (v % 256)] := by
+  simp [Spec.headBytes, Spec.beBytes, Spec.argBytes]
+theorem hb_25 (mt v : Nat) : Spec.headBytes mt 25 v =
+    [UInt8.ofNat (mt * 32 + 25), UInt8.ofNat (v / 256 % 256), UInt8.ofNat (v % 256)] := by
+  simp [Spec.headBytes, Spec.beBytes, Spec.argBytes]
+theorem hb_26 (mt v : Nat) : Spec.headBytes mt 26 v =
+    [UInt8.ofNat (mt * 32 + 26), UInt8.ofNat (v / 256 ^ 3 % 256), UInt8.ofNat (v / 256 ^ 2 % 256),
+     UInt8.ofNat (v / 256 % 256), UInt8.ofNat (v % 256)] := by
+  simp [Spec.headBytes, Spec.beBytes, Spec.argBytes]
+theorem hb_27 (mt v : Nat) : Spec.headBytes mt 27 v =
+    [UInt8.ofNat (mt * 32 + 27), UInt8.ofNat (v / 256 ^ 7 % 256), UInt8.ofNat (v / 256 ^ 6 % 256),
+     UInt8.ofNat (v / 256 ^ 5 % 256), UInt8.ofNat (v / 256 ^ 4 % 256), UInt8.ofNat (v / 256 ^ 3 % 256),
+     UInt8.ofNat (v / 256 ^ 2 % 256), UInt8.ofNat (v / 256 % 256), UInt8.ofNat (v % 256)] := by
+  simp [Spec.headBytes, Spec.beBytes, Spec.argBytes]
+
+/-- equality of two bytes, through `toNat` -/
+local macro "u8eq" : tactic => `(tactic| (apply UInt8.toNat_inj.mp; (simp [C.toU8, UInt8.toNat_add, UInt8.toNat_mul,
+  Nat.shiftRight_eq_div_pow, Nat.shiftLeft_eq, UInt16.toNat_div, UInt32.toNat_div, UInt64.toNat_div] <;> omega)))
+
+/-- the uniform end of every encoder lemma: all `if`s split, guards compared as naturals, stores compared one by one -/
+local macro "enc_fin" : tactic => `(tactic| (
+  simp only [writeList, List.length_cons, List.length_nil]
+  repeat' split
+  all_goals cnorm
+  all_goals (try omega)
+  all_goals stores_eq
+  all_goals (first | omega | (apply UInt64.toNat_inj.mp; simp; done) | u8eq)))
+
 theorem enc8 (v : UInt8) (buf : Array UInt8) (off : Nat) (n : UInt64) (mt : Nat) (hmt : mt < 8) :
     _cbor_encode_uint8 v buf off n (UInt8.ofNat (mt * 32)) =
       encRes buf off n (Spec.headBytes mt (if v.toNat < 24 then v.toNat else 24) v.toNat) := by
   have hv := v.toNat_lt
-  have hb0 : C.toU8 ((24 : Int) + ((UInt8.ofNat (mt * 32)).toNat : Int)) = UInt8.ofNat (mt * 32 + 24) := by u8eq
-  have hbi : v.toNat < 24 → C.toU8 ((v.toNat : Int) + ((UInt8.ofNat (mt * 32)).toNat : Int)) = UInt8.ofNat (mt * 32 + v.toNat) := by
-    intro _; u8eq
-  have hb1 : v = UInt8.ofNat (v.toNat / 256 ^ 0 % 256) := by u8eq
-  unfold _cbor_encode_uint8 encRes
   by_cases hs : v.toNat < 24
-  · have hle : ((v.toNat : Int) ≤ 23) := by omega
-    simp only [hle, decide_true, if_true, hs, hbi hs]
-    by_cases h : n ≥ 1
-    · have h' := UInt64.le_iff_toNat_le.mp h
-      simp at h'
-      simp [h, Spec.headBytes, hs, writeList, h']
-    · have h' : ¬ (1 : UInt64).toNat ≤ n.toNat := fun hh => h (UInt64.le_iff_toNat_le.mpr hh)
-      simp at h'
-      simp [h, Spec.headBytes, hs, h']
-  · have hle : ¬ ((v.toNat : Int) ≤ 23) := by omega
-    simp only [hle, decide_false, if_false, hs, hb0]
-    by_cases h : n ≥ 2
-    · have h' := UInt64.le_iff_toNat_le.mp h
-      simp at h'
-      simp [h, Spec.headBytes, Spec.beBytes, Spec.argBytes, writeList, h']
-    · have h' : ¬ (2 : UInt64).toNat ≤ n.toNat := fun hh => h (UInt64.le_iff_toNat_le.mpr hh)
-      simp at h'
-      simp [h, Spec.headBytes, Spec.beBytes, Spec.argBytes]
-      omega
+  · rw [if_pos hs, hb_small _ _ _ hs]
+    unfold _cbor_encode_uint8 encRes
+    enc_fin
+  · rw [if_neg hs, hb_24]
+    unfold _cbor_encode_uint8 encRes
+    enc_fin
 
 theorem enc16 (v : UInt16) (buf : Array UInt8) (off : Nat) (n : UInt64) (mt : Nat) (hmt : mt < 8) :
     _cbor_encode_uint16 v buf off n (UInt8.ofNat (mt * 32)) = encRes buf off n (Spec.headBytes mt 25 v.toNat) := by
   have hv := v.toNat_lt
-  have hb0 : C.toU8 ((25 : Int) + ((UInt8.ofNat (mt * 32)).toNat : Int)) = UInt8.ofNat (mt * 32 + 25) := by u8eq
-  have hb1 : C.toU8 ((v.toNat : Int) / 2 ^ 8) = UInt8.ofNat (v.toNat / 256 ^ 1 % 256) := by u8eq
-  have hb2 : v.toUInt8 = UInt8.ofNat (v.toNat / 256 ^ 0 % 256) := by u8eq
+  rw [hb_25]
   unfold _cbor_encode_uint16 encRes
-  simp only [hb0, hb1, hb2]
-  by_cases h : n ≤ 2
-  · have h' := UInt64.le_iff_toNat_le.mp h
-    simp at h'
-    simp [h, Spec.headBytes, Spec.beBytes, Spec.argBytes]
-    omega
-  · have h' : ¬ n.toNat ≤ 2 := fun hh => h (UInt64.le_iff_toNat_le.mpr hh)
-    simp at h'
-    simp [h, Spec.headBytes, Spec.beBytes, Spec.argBytes, writeList, h']
-    omega
+  enc_fin
 
 theorem enc32 (v : UInt32) (buf : Array UInt8) (off : Nat) (n : UInt64) (mt : Nat) (hmt : mt < 8) :
     _cbor_encode_uint32 v buf off n (UInt8.ofNat (mt * 32)) = encRes buf off n (Spec.headBytes mt 26 v.toNat) := by
   have hv := v.toNat_lt
-  have hb0 : C.toU8 ((26 : Int) + ((UInt8.ofNat (mt * 32)).toNat : Int)) = UInt8.ofNat (mt * 32 + 26) := by u8eq
-  have hb1 : (v >>> (24 : UInt32)).toUInt8 = UInt8.ofNat (v.toNat / 256 ^ 3 % 256) := by u8eq
-  have hb2 : (v >>> (16 : UInt32)).toUInt8 = UInt8.ofNat (v.toNat / 256 ^ 2 % 256) := by u8eq
-  have hb3 : (v >>> (8 : UInt32)).toUInt8 = UInt8.ofNat (v.toNat / 256 ^ 1 % 256) := by u8eq
-  have hb4 : v.toUInt8 = UInt8.ofNat (v.toNat / 256 ^ 0 % 256) := by u8eq
+  rw [hb_26]
   unfold _cbor_encode_uint32 encRes
-  simp only [hb0, hb1, hb2, hb3, hb4]
-  by_cases h : n ≤ 4
-  · have h' := UInt64.le_iff_toNat_le.mp h
-    simp at h'
-    simp [h, Spec.headBytes, Spec.beBytes, Spec.argBytes]
-    omega
-  · have h' : ¬ n.toNat ≤ 4 := fun hh => h (UInt64.le_iff_toNat_le.mpr hh)
-    simp at h'
-    simp [h, Spec.headBytes, Spec.beBytes, Spec.argBytes, writeList, h']
-    omega
+  enc_fin
 
 theorem enc64 (v : UInt64) (buf : Array UInt8) (off : Nat) (n : UInt64) (mt : Nat) (hmt : mt < 8) :
     _cbor_encode_uint64 v buf off n (UInt8.ofNat (mt * 32)) = encRes buf off n (Spec.headBytes mt 27 v.toNat) := by
   have hv := v.toNat_lt
-  have hb0 : C.toU8 ((27 : Int) + ((UInt8.ofNat (mt * 32)).toNat : Int)) = UInt8.ofNat (mt * 32 + 27) := by u8eq
-  have hb1 : (v >>> (56 : UInt64)).toUInt8 = UInt8.ofNat (v.toNat / 256 ^ 7 % 256) := by u8eq
-  have hb2 : (v >>> (48 : UInt64)).toUInt8 = UInt8.ofNat (v.toNat / 256 ^ 6 % 256) := by u8eq
-  have hb3 : (v >>> (40 : UInt64)).toUInt8 = UInt8.ofNat (v.toNat / 256 ^ 5 % 256) := by u8eq
-  have hb4 : (v >>> (32 : UInt64)).toUInt8 = UInt8.ofNat (v.toNat / 256 ^ 4 % 256) := by u8eq
-  have hb5 : (v >>> (24 : UInt64)).toUInt8 = UInt8.ofNat (v.toNat / 256 ^ 3 % 256) := by u8eq
-  have hb6 : (v >>> (16 : UInt64)).toUInt8 = UInt8.ofNat (v.toNat / 256 ^ 2 % 256) := by u8eq
-  have hb7 : (v >>> (8 : UInt64)).toUInt8 = UInt8.ofNat (v.toNat / 256 ^ 1 % 256) := by u8eq
-  have hb8 : v.toUInt8 = UInt8.ofNat (v.toNat / 256 ^ 0 % 256) := by u8eq
+  rw [hb_27]
   unfold _cbor_encode_uint64 encRes
-  simp only [hb0, hb1, hb2, hb3, hb4, hb5, hb6, hb7, hb8]
-  by_cases h : n ≥ 9
-  · have h' := UInt64.le_iff_toNat_le.mp h
-    simp at h'
-    simp [h, Spec.headBytes, Spec.beBytes, Spec.argBytes, writeList, h']
-  · have h' : ¬ (9 : UInt64).toNat ≤ n.toNat := fun hh => h (UInt64.le_iff_toNat_le.mpr hh)
-    simp at h'
-    simp [h, Spec.headBytes, Spec.beBytes, Spec.argBytes]
-    omega
+  enc_fin
+
+/-! the shortest head of the specification, per range of the value (facts about `Spec` only) -/
+theorem head_le_255 (mt v : Nat) (h : v ≤ 255) : Spec.head mt v = Spec.headBytes mt (if v < 24 then v else 24) v := by
+  unfold Spec.head Spec.shortestAi
+  repeat' split
+  all_goals (first | rfl | omega)
+theorem head_le_65535 (mt v : Nat) (h1 : 255 < v) (h2 : v ≤ 65535) : Spec.head mt v = Spec.headBytes mt 25 v := by
+  unfold Spec.head Spec.shortestAi
+  repeat' split
+  all_goals (first | rfl | omega)
+theorem head_le_4294967295 (mt v : Nat) (h1 : 65535 < v) (h2 : v ≤ 4294967295) : Spec.head mt v = Spec.headBytes mt 26 v := by
+  unfold Spec.head Spec.shortestAi
+  repeat' split
+  all_goals (first | rfl | omega)
+theorem head_gt_4294967295 (mt v : Nat) (h1 : 4294967295 < v) : Spec.head mt v = Spec.headBytes mt 27 v := by
+  unfold Spec.head Spec.shortestAi
+  repeat' split
+  all_goals (first | rfl | omega)
 
 /-- the width-agnostic encoder emits the shortest head -/
 theorem encUint (v : UInt64) (buf : Array UInt8) (off : Nat) (n : UInt64) (mt : Nat) (hmt : mt < 8) :
     _cbor_encode_uint v buf off n (UInt8.ofNat (mt * 32)) = encRes buf off n (Spec.head mt v.toNat) := by
-  unfold _cbor_encode_uint Spec.head Spec.shortestAi
   have hv := v.toNat_lt
-  by_cases h1 : v ≤ 65535
-  · have h1' := UInt64.le_iff_toNat_le.mp h1
-    simp at h1'
-    by_cases h2 : v ≤ 255
-    · have h2' := UInt64.le_iff_toNat_le.mp h2
-      simp at h2'
-      have hc : v.toUInt8.toNat = v.toNat := by simp; omega
-      simp only [h1, h2, decide_true, if_true]
-      rw [enc8 _ _ _ _ _ hmt, hc]
-      by_cases h3 : v.toNat < 24
-      · simp [h3]
-      · have : v.toNat < 256 := by omega
-        simp [h3, this]
-    · have h2' : ¬ v.toNat ≤ (255 : UInt64).toNat := fun hh => h2 (UInt64.le_iff_toNat_le.mpr hh)
-      simp at h2'
-      have hc : v.toUInt16.toNat = v.toNat := by simp; omega
-      simp only [h1, h2, decide_true, decide_false, if_true, if_false]
-      rw [enc16 _ _ _ _ _ hmt, hc]
-      have a : ¬ v.toNat < 24 := by omega
-      have b : ¬ v.toNat < 256 := by omega
-      have c : v.toNat < 65536 := by omega
-      simp [a, b, c]
-  · have h1' : ¬ v.toNat ≤ (65535 : UInt64).toNat := fun hh => h1 (UInt64.le_iff_toNat_le.mpr hh)
-    simp at h1'
-    by_cases h2 : v ≤ 4294967295
-    · have h2' := UInt64.le_iff_toNat_le.mp h2
-      simp at h2'
-      have hc : v.toUInt32.toNat = v.toNat := by simp; omega
-      simp only [h1, h2, decide_true, decide_false, if_true, if_false]
-      rw [enc32 _ _ _ _ _ hmt, hc]
-      have a : ¬ v.toNat < 24 := by omega
-      have b : ¬ v.toNat < 256 := by omega
-      have c : ¬ v.toNat < 65536 := by omega
-      have d : v.toNat < 4294967296 := by omega
-      simp [a, b, c, d]
-    · have h2' : ¬ v.toNat ≤ (4294967295 : UInt64).toNat := fun hh => h2 (UInt64.le_iff_toNat_le.mpr hh)
-      simp at h2'
-      simp only [h1, h2, decide_false, if_false]
-      rw [enc64 _ _ _ _ _ hmt]
-      have a : ¬ v.toNat < 24 := by omega
-      have b : ¬ v.toNat < 256 := by omega
-      have c : ¬ v.toNat < 65536 := by omega
-      have d : ¬ v.toNat < 4294967296 := by omega
-      simp [a, b, c, d]
+  have c8 : v.toNat ≤ 255 → v.toUInt8.toNat = v.toNat := by intro h; simp; omega
+  have c16 : v.toNat ≤ 65535 → v.toUInt16.toNat = v.toNat := by intro h; simp; omega
+  have c32 : v.toNat ≤ 4294967295 → v.toUInt32.toNat = v.toNat := by intro h; simp; omega
+  unfold _cbor_encode_uint
+  simp only [Prod.eta]
+  repeat' split
+  all_goals cnorm
+  all_goals (first
+    | (rw [enc8 _ _ _ _ _ hmt, c8 (by omega), head_le_255 _ _ (by omega)]; done)
+    | (rw [enc16 _ _ _ _ _ hmt, c16 (by omega), head_le_65535 _ _ (by omega) (by omega)]; done)
+    | (rw [enc32 _ _ _ _ _ hmt, c32 (by omega), head_le_4294967295 _ _ (by omega) (by omega)]; done)
+    | (rw [enc64 _ _ _ _ _ hmt, head_gt_4294967295 _ _ (by omega)]; done)
+    | omega)
 
 end Lemmas
 
@@ -175,53 +137,45 @@ open Gen
 theorem encByte (v : UInt8) (buf : Array UInt8) (off : Nat) (n : UInt64) :
     _cbor_encode_byte v buf off n = encRes buf off n [v] := by
   unfold _cbor_encode_byte encRes
-  by_cases h : n ≥ 1
-  · have h' := UInt64.le_iff_toNat_le.mp h
-    simp at h'
-    simp [h, writeList, h']
-  · have h' : ¬ (1 : UInt64).toNat ≤ n.toNat := fun hh => h (UInt64.le_iff_toNat_le.mpr hh)
-    simp at h'
-    simp [h, h']
+  simp only [writeList, List.length_cons, List.length_nil]
+  repeat' split
+  all_goals cnorm
+  all_goals (try omega)
+  all_goals stores_eq
+  all_goals (first | omega | (apply UInt64.toNat_inj.mp; simp; done))
 
 /-! ### side conditions (`.ok`): no store outside the buffer, no undefined arithmetic -/
+
+/-- every `.ok` lemma of a leaf encoder: split, normalise, the remaining obligations are linear facts -/
+local macro "ok_fin" : tactic => `(tactic| (
+  repeat' split
+  all_goals cnorm
+  all_goals (try omega)
+  all_goals (simp [C.fitsS] <;> omega)))
 
 theorem enc8_ok (v : UInt8) (buf : Array UInt8) (off : Nat) (n : UInt64) (o : UInt8) (h : off + n.toNat ≤ buf.size) :
     _cbor_encode_uint8.ok v buf off n o = true := by
   have hv := v.toNat_lt; have ho := o.toNat_lt
   unfold _cbor_encode_uint8.ok
-  repeat' split
-  all_goals (rename_i hs; try (have hs' := UInt64.le_iff_toNat_le.mp (of_decide_eq_true hs); simp at hs'))
-  all_goals (simp [C.fitsS] <;> omega)
+  ok_fin
 
 theorem enc16_ok (v : UInt16) (buf : Array UInt8) (off : Nat) (n : UInt64) (o : UInt8) (h : off + n.toNat ≤ buf.size) :
     _cbor_encode_uint16.ok v buf off n o = true := by
-  have ho := o.toNat_lt
+  have hv := v.toNat_lt; have ho := o.toNat_lt
   unfold _cbor_encode_uint16.ok
-  split
-  · rfl
-  · rename_i hs
-    have hs' : ¬ n.toNat ≤ 2 := fun hh => hs (by simpa using UInt64.le_iff_toNat_le.mpr (by simpa using hh))
-    simp [C.fitsS]; omega
+  ok_fin
 
 theorem enc32_ok (v : UInt32) (buf : Array UInt8) (off : Nat) (n : UInt64) (o : UInt8) (h : off + n.toNat ≤ buf.size) :
     _cbor_encode_uint32.ok v buf off n o = true := by
-  have ho := o.toNat_lt
+  have hv := v.toNat_lt; have ho := o.toNat_lt
   unfold _cbor_encode_uint32.ok
-  split
-  · rfl
-  · rename_i hs
-    have hs' : ¬ n.toNat ≤ 4 := fun hh => hs (by simpa using UInt64.le_iff_toNat_le.mpr (by simpa using hh))
-    simp [C.fitsS]; omega
+  ok_fin
 
 theorem enc64_ok (v : UInt64) (buf : Array UInt8) (off : Nat) (n : UInt64) (o : UInt8) (h : off + n.toNat ≤ buf.size) :
     _cbor_encode_uint64.ok v buf off n o = true := by
-  have ho := o.toNat_lt
+  have hv := v.toNat_lt; have ho := o.toNat_lt
   unfold _cbor_encode_uint64.ok
-  split
-  · rename_i hs
-    have hs' := UInt64.le_iff_toNat_le.mp (of_decide_eq_true hs); simp at hs'
-    simp [C.fitsS]; omega
-  · rfl
+  ok_fin
 
 theorem encUint_ok (v : UInt64) (buf : Array UInt8) (off : Nat) (n : UInt64) (o : UInt8) (h : off + n.toNat ≤ buf.size) :
     _cbor_encode_uint.ok v buf off n o = true := by
@@ -232,11 +186,7 @@ theorem encUint_ok (v : UInt64) (buf : Array UInt8) (off : Nat) (n : UInt64) (o 
 theorem encByte_ok (v : UInt8) (buf : Array UInt8) (off : Nat) (n : UInt64) (h : off + n.toNat ≤ buf.size) :
     _cbor_encode_byte.ok v buf off n = true := by
   unfold _cbor_encode_byte.ok
-  split
-  · rename_i hs
-    have hs' := UInt64.le_iff_toNat_le.mp (of_decide_eq_true hs); simp at hs'
-    simp; omega
-  · rfl
+  ok_fin
 
 /-! ### frame: what an encoder call can have changed -/
 
